@@ -97,6 +97,34 @@ theorem getBlocks_fits (m : Nat × List Bytes × Bytes) (h : getBlocks.wf m) (pv
   show _ ≤ 4 + 9 + 500 * 32 + 32
   omega
 
+/-! ### transaction locations inside a serialized block (`TxLoc`, `DeserializeTxLoc`) -/
+
+theorem encList_append {α : Type} (c : Codec α) (l1 l2 : List α) :
+    encList c (l1 ++ l2) = encList c l1 ++ encList c l2 := by
+  induction l1 with
+  | nil => rfl
+  | cons x xs ih => simp [encList, ih]
+
+theorem drop_take_mid (a m z : Bytes) : ((a ++ (m ++ z)).drop a.length).take m.length = m := by
+  simp
+
+/-- the bytes of the i-th transaction sit at offset `80 + |count| + Σ earlier lengths` of the block -/
+theorem block_tx_slice (e : TxEnc) (hdr : BlockHeader) (pre post : List Tx) (x : Tx) (hh : blockHeader.wf hdr) :
+    (((block e).enc (hdr, pre ++ x :: post)).drop
+        (80 + varintSize (pre ++ x :: post).length + (encList (tx e) pre).length)).take ((tx e).enc x).length
+      = (tx e).enc x := by
+  have hl := blockHeader_enc_len hdr hh
+  have e1 : (block e).enc (hdr, pre ++ x :: post) =
+      (blockHeader.enc hdr ++ varintEnc (pre ++ x :: post).length ++ encList (tx e) pre) ++
+        ((tx e).enc x ++ encList (tx e) post) := by
+    simp only [block, seq, seqDep, listOf, imap, charge, BV.Codec.guard, varint, listN, encList_append, encList,
+      List.append_assoc]
+  have e2 : 80 + varintSize (pre ++ x :: post).length + (encList (tx e) pre).length =
+      (blockHeader.enc hdr ++ varintEnc (pre ++ x :: post).length ++ encList (tx e) pre).length := by
+    simp only [List.length_append, hl, varintSize_eq]
+  rw [e1, e2]
+  exact drop_take_mid _ _ _
+
 /-! ### gates -/
 
 /-- the network address carries its timestamp exactly from `NetAddressTimeVersion` on -/
